@@ -111,12 +111,48 @@ def check(case):
     return bad
 
 
+def stat_case(case):
+    """distribution of the RELEASED noise (a test, not a proof): 20k noise values of one step vs N(0, (sigma C)^2), and independence
+    across steps / parameters through sample correlations"""
+    from scipy import stats
+    torch.manual_seed(case['seed'])
+    m = nn.Sequential(nn.Linear(100, 100, bias=False), nn.Linear(100, 100, bias=False))
+    gsm = GradSampleModule(m, loss_reduction='sum')
+    inner = torch.optim.SGD(m.parameters(), lr=0.0)
+    opt = DPOptimizer(inner, noise_multiplier=case['nm'], max_grad_norm=case['C'], expected_batch_size=4, loss_reduction='sum',
+                      generator=torch.Generator().manual_seed(case['seed'] + 1), secure_mode=case['secure'])
+    X = torch.randn(4, 100)
+    zs = []
+    for st in range(2):
+        opt.zero_grad()
+        gsm(X).sum().backward()
+        opt.clip_and_accumulate()
+        summed = [p.summed_grad.clone() for p in opt.params]
+        opt.add_noise()
+        zs.append([(p.grad - s_.view_as(p.grad)).flatten() for p, s_ in zip(opt.params, summed)])
+        opt.scale_grad()
+    bad = []
+    sd = case['nm'] * case['C']
+    allz = torch.cat(zs[0]).numpy()
+    ks = stats.kstest(allz / sd, 'norm')
+    if ks.pvalue < 1e-5:
+        bad.append('released noise is not N(0, (sigma C)^2): KS p-value %.3g (sample std %.4f, expected %.4f)' % (ks.pvalue, float(allz.std()), sd))
+    if abs(float(allz.std()) / sd - 1) > 0.03:
+        bad.append('sample std of the released noise %.4f, expected sigma*C = %.4f' % (float(allz.std()), sd))
+    import numpy as np
+    for name, a, b in (('consecutive steps', torch.cat(zs[0]), torch.cat(zs[1])), ('two parameters', zs[0][0], zs[0][1])):
+        r = float(np.corrcoef(a.numpy(), b.numpy())[0, 1])
+        if abs(r) > 0.05:
+            bad.append('noise of %s is correlated: r = %.3f' % (name, r))
+    return bad
+
+
 if __name__ == '__main__':
     p = read_payload()
     out = []
     for c in p['cases']:
         try:
-            out.append({'bad': check(c), 'error': None})
+            out.append({'bad': stat_case(c) if c.get('stat') else check(c), 'error': None})
         except Exception as e:
             import traceback
             out.append({'bad': [], 'error': errname(e) + ' ' + traceback.format_exc()[-500:]})
